@@ -76,6 +76,14 @@ def dependent(cname: str, prop: str) -> set:
     return {prop}
 
 
+def _duplicate_components(c: Any) -> bool:
+    kinds = []
+    for x in c.raw_cost.raw_components:
+        n = type(x).__name__
+        kinds.append('amount-family' if n in ('NumberExpr', 'Currency', 'Amount', 'CompoundAmount') else n)
+    return len(kinds) != len(set(kinds))
+
+
 def reparse(root: Any) -> Optional[Any]:
     try:
         return common.parse_file(O.print_text(root))
@@ -101,6 +109,9 @@ def run_generic(case: dict) -> Result:
         prop = op['prop']
         if prop in SKIP_PROPS or len(dependent(cname, prop)) > 1:
             continue  # the dependent groups have their own reference models below
+        if cname == 'CostSpec' and _duplicate_components(P):
+            classes.add('skipped-duplicate-cost-components')
+            continue  # '{*, *}' or two dates: the record-of-optionals view has one slot per kind; such forms are not started from
         idx0 = OPS.index_models(root)
         mi = next((i for i, m in enumerate(idx0.get(cname, [])) if m is P), None)
         before = value_state(P)
